@@ -573,8 +573,10 @@ def run_check(prop, tier, seed, replay=None):
             'wall_s': round(time.time() - t0, 2),
             'violations': 1 if exit_code else 0,
         }
-        os.makedirs(os.path.join(ROOT, 'evidence'), exist_ok=True)
-        with open(os.path.join(ROOT, 'evidence', prop.id + '.json'), 'w') as f:
+        # VERIF_EVIDENCE_DIR: runs against a deliberately changed tree (seeded changes) keep their evidence elsewhere
+        evdir = os.environ.get('VERIF_EVIDENCE_DIR') or os.path.join(ROOT, 'evidence')
+        os.makedirs(evdir, exist_ok=True)
+        with open(os.path.join(evdir, prop.id + '.json'), 'w') as f:
             json.dump(ev, f, indent=1, sort_keys=True)
             f.write('\n')
 
